@@ -25,7 +25,9 @@ RULE = (
     'with an injected error at statement k (sqlite3.OperationalError, a '
     'RuntimeError that is not a database error, or KeyboardInterrupt); '
     'run it with a simulated kill at statement k (snapshot of file + journal '
-    'taken under PRAGMA cache_size=1, then opened for hot-journal recovery); '
+    'taken under PRAGMA cache_size=1, then opened for hot-journal recovery); at '
+    'the end of every history each completed step is attempted once more in a '
+    'way that cannot complete; '
     'k = 1 + floor(frac*N), N learned from a counting dry run on a copy. '
     'Part every_statement enumerates EVERY statement index of every step of a '
     'dataset as fault point and as kill point (exhaustive per dataset); part '
@@ -281,7 +283,21 @@ def check_history(case):
             if step not in machine.completed:
                 apply_op(machine, {'kind': 'run', 'step': step, 'arg': 0},
                          labels)
-        order = machine.order
+        order = list(machine.order)
+        # ... and every completed step is attempted once more in a way that
+        # cannot complete (failing by itself, faulted late, or killed late):
+        # a second attempt must not damage what the first one stored
+        for index, step in enumerate(list(machine.completed)):
+            variant = (len(case['ops']) + index) % 3
+            if variant == 0:
+                op = {'kind': 'run', 'step': step, 'arg': 3}
+            elif variant == 1:
+                op = {'kind': 'fault', 'step': step, 'arg': 3,
+                      'frac': 0.9, 'exc': 'runtime'}
+            else:
+                op = {'kind': 'kill', 'step': step, 'arg': 3, 'frac': 0.9}
+            apply_op(machine, op, labels)
+        labels.add('second-attempts')
     finally:
         machine.close()
     canonical = [s for s in STEPS if s in order]
